@@ -1,7 +1,7 @@
 (* C09 — client protocol conduct.  Models: theories/Client.v, theories/Url.v; tied to both clients by harness/props/c09.py. *)
 From Coq Require Import ZArith NArith List Bool.
 Import ListNotations.
-From EIO Require Import Util Strings Client ClientProofs Url UrlProofs.
+From EIO Require Import Util Strings Client ClientProofs ClientQueue Url UrlProofs.
 Open Scope N_scope.
 
 (* a connected client answers a PING by queueing exactly one PONG with the same data behind everything already queued *)
@@ -36,9 +36,28 @@ Theorem c09_url_query_kept : forall scheme netloc query path ws,
     (query <> [] -> post = [38] ++ [116;114;97;110;115;112;111;114;116;61] ++ (if ws then t_websocket else t_polling) ++ [38;69;73;79;61;52]).
 Proof. exact url_query_kept. Qed.
 
+(* The send queue is a FIFO that only send() / PONG / CLOSE append to and only the write loop takes from.
+   A step of any task other than the write loop - and any application call other than connect(), which starts a new queue -
+   leaves the queue as it was or appends to it, and transmits nothing: *)
+Theorem c09_only_the_write_loop_takes : forall cfg t e, is_write (t_task e) = false ->
+  forall s, (exists suf, queue (ClientProofs.stof (run_task cfg t e s)) = queue s ++ suf) /\ txd (ClientProofs.outof (run_task cfg t e s)) = [].
+Proof. exact nonwrite_appends. Qed.
+Theorem c09_calls_append : forall cfg me call x, (match x with AConnect _ => False | _ => True end) ->
+  forall s, (exists suf, queue (ClientProofs.stof (run_api cfg me call x s)) = queue s ++ suf) /\ txd (ClientProofs.outof (run_api cfg me call x s)) = [].
+Proof. exact call_appends. Qed.
+
+(* A step of the write loop transmits in queue order, exactly once each: what it put on the wire (POST bodies, WebSocket frames),
+   followed by what a failed WebSocket send dropped, followed by what is still queued, is what was queued. *)
+Theorem c09_write_loop_in_order : forall cfg t e s, is_write (t_task e) = true ->
+  exists lost, txd (ClientProofs.outof (run_task cfg t e s)) ++ lost ++ pks (queue (ClientProofs.stof (run_task cfg t e s))) = pks (queue s).
+Proof. exact write_conserves. Qed.
+
 Print Assumptions c09_pong_echo.
 Print Assumptions c09_noop_and_unknown_ignored.
 Print Assumptions c09_batch_order.
 Print Assumptions c09_batch_bound.
 Print Assumptions c09_url_scheme.
 Print Assumptions c09_url_query_kept.
+Print Assumptions c09_only_the_write_loop_takes.
+Print Assumptions c09_calls_append.
+Print Assumptions c09_write_loop_in_order.
